@@ -1,6 +1,6 @@
 """C01 merge is a commutative-monoid homomorphism (partition invariance, identity, comm., assoc.)."""
 import catalogue as cat
-from gen_common import SETUP, bounds_text, data_params
+from gen_common import SETUP, SPECIAL_XY, bounds_text, data_params
 from run import Harness
 
 ASSUMPTIONS = [
@@ -38,8 +38,9 @@ if not jeq(ja, J(a.zero() + a)): return "left-identity"
         timeout=timeout,
         setup=_setup(tree),
         tree=tree.expr,
+        special=SPECIAL_XY if special else None,
         bounds=bounds_text(tree, n, chunks=2, cut=k, weights="symbolic finite (any sign)" if weights else "1.0",
-                           special="NaN/+-inf by selector" if special else ("any float64" if mode == "ieee" else "finite reals")),
+                           data="finite reals + nan/+inf/-inf" if special else ("any float64" if mode == "ieee" else "finite reals")),
     )
 
 
